@@ -787,6 +787,10 @@ func cmdSelftest(args []string) {
 				j := job{Mode: "run", Property: prop, Tier: tier, Seed: 20260925, Worker: w, Workers: c.workers, Only: only, NoShrink: true,
 					Out: filepath.Join(scratch, fmt.Sprintf("st%d-w%d.json", ci, w)), HashOut: filepath.Join(scratch, fmt.Sprintf("st%d-w%d.hash", ci, w)),
 					ReplayDir: filepath.Join(scratch, "replays")}
+				if d := os.Getenv("SIMCHECK_SELFTEST_LOGDIR"); d != "" {
+					// debugging aid: keep every run's event log, one directory per process configuration
+					j.LogDir = filepath.Join(d, fmt.Sprintf("cfg%d", ci))
+				}
 				jb, _ := json.Marshal(j)
 				jp := filepath.Join(scratch, fmt.Sprintf("stjob%d-%d.json", ci, w))
 				_ = os.WriteFile(jp, jb, 0o644)
